@@ -14,7 +14,7 @@ for p in allp:
         continue
     checks.append(dict(property_id=pid, quick_cmd="bin/check %s --tier quick" % pid, thorough_cmd="bin/check %s --tier thorough" % pid,
                        evidence_file="evidence/%s.json" % pid, replay_cmd_template="bin/check %s --replay {path}" % pid,
-                       engine=sp.get("engine", sp["campaigns"][0][0] if sp.get("campaigns") else "custom"),
+                       engine=sp.get("engine") or (sp["campaigns"][0][0] if not isinstance(sp["campaigns"][0], dict) else sp["campaigns"][0]["target"]),
                        level_claimed=dict(category=sp["level"], text=sp["level_text"], design_ref=sp.get("design_ref", "DESIGN.md section 3, " + pid)),
                        level_note=sp["level_note"], technique=sp["technique"]))
 m = dict(version=1, setup_cmd="bin/setup",
